@@ -220,6 +220,16 @@ def nist_variants(b):
     return [("header2048", b[:8] + b"   2048\n" + b[16:1024] + b" " * 1024 + b[1024:])]
 
 
+def id3_prefix(n):
+    """an ID3v2.3 tag of 10 + n bytes (size field syncsafe, padding only)"""
+    return b"ID3\x03\x00\x00" + bytes([(n >> 21) & 0x7F, (n >> 14) & 0x7F, (n >> 7) & 0x7F, n & 0x7F]) + bytes(n)
+
+
+def id3_variants(b):
+    """the file behind an ID3v2 tag (guess_file_type: id3_skip moves psf->fileoffset behind the tag and looks again) -- any container"""
+    return [("id3v2-tag%d" % n, id3_prefix(n) + b) for n in (1, 50, 3000)]
+
+
 VARIANTS = {0x08: voc_variants, 0x07: nist_variants, 0x03: au_variants, 0x01: wav_variants, 0x13: wav_variants, 0x02: aiff_variants, 0x06: svx_variants, 0x18: caf_variants,
             0x0B: w64_variants, 0x22: rf64_variants}
 
@@ -242,6 +252,14 @@ def run(ctx, consts, jobs):
         for j in pick:
             for tag, nb in VARIANTS[mj](bytes.fromhex(j["filehex"])):
                 cases.append(dict(j=j, tag=tag, hex=nb.hex(), name="%s+%s" % (j["name"], tag)))
+        # the ID3v2 prefix: deterministic -- the first sample-granular job of the container (by name), every run
+        for j in sorted(gran, key=lambda j: j["name"])[:1]:
+            for tag, nb in id3_variants(bytes.fromhex(j["filehex"])):
+                cases.append(dict(j=j, tag=tag, hex=nb.hex(), name="%s+%s" % (j["name"], tag), anyref=True))
+    from . import bigskip                    # deterministic slice: skips that do not fit the header cache (sizes around 100 KiB, 16 KiB multiples +- 1)
+    big = bigskip.cases(jobs, quick)
+    cases += big
+    stats["bigskip_cases"] = len(big)
     scripts = []
     for n, c in enumerate(cases):
         j = c["j"]
@@ -251,13 +269,16 @@ def run(ctx, consts, jobs):
         # defined frame count on a pipe (the library refuses the first and reports SF_COUNT_MAX-derived frames for the second, by design)
         open_ended = "unknown-size" in c["tag"]
         routes = ["vio", "path", "fd0", "fd1"] + (["fdemb:37:9", "fdemb:4096:100"] if f.major in C.WHITELIST and not open_ended else [])
+        if c.get("bigskip"):
+            routes = c["routes"]
         c["routes"] = routes
         for r in routes:
             scripts.append(("f|%d|%s" % (n, r), C.read_script(f, j["ch"], j["frames"], c["hex"], r)))
+        want_pipes = c.get("pipes") if c.get("bigskip") else ["pipe", "pipe:4096"]
         c["pipes"] = []
         if f.major in C.PIPE_MAJORS and f.granular and not open_ended:
-            c["pipes"] = ["pipe", "pipe:4096"]
-            scripts.append(("f|%d|vioseq" % n, C.read_script(f, j["ch"], j["frames"], c["hex"], "vio", seekable=False)))
+            c["pipes"] = want_pipes
+            scripts.append(("f|%d|vioseq" % n, C.read_script(f, j["ch"], j["frames"], c["hex"], "path" if c.get("anyref") else "vio", seekable=False)))
             for r in c["pipes"]:
                 scripts.append(("f|%d|%s" % (n, r), C.read_script(f, j["ch"], j["frames"], c["hex"], r, seekable=False)))
     res = ctx.batch(scripts, op_timeout=20, clean=True)
@@ -278,13 +299,42 @@ def run(ctx, consts, jobs):
     def samples(lines):
         return [l for l in lines if l.startswith("ret=") and "data=" in l]
 
+    control_ok = {}
     for n, c in enumerate(cases):
         j = c["j"]
         f, ch = j["f"], j["ch"]
         base = rd("b|%d" % n, ch)
         ref = rd("f|%d|vio" % n, ch)
         stats["files"] += 1
-        ok = bool(ref) and ref[0].startswith("open=ok") and bool(base) and re.sub(r" sections=\d+", "", ref[0]) == re.sub(r" sections=\d+", "", base[0]) and samples(ref) == samples(base)
+
+        def accepts(r):
+            return bool(r) and r[0].startswith("open=ok") and bool(base) and re.sub(r" sections=\d+", "", r[0]) == re.sub(r" sections=\d+", "", base[0]) and samples(r) == samples(base)
+        ok = accepts(ref)
+        if not ok and c.get("anyref") and "path" in c["routes"] and accepts(rd("f|%d|path" % n, ch)):
+            # a layout for which NO route is privileged (the ID3v2 prefix): it counts as soon as one route reads the base file out of it;
+            # the other routes -- virtual I/O included -- are then compared with that one
+            ref = rd("f|%d|path" % n, ch)
+            ok = True
+            vio = rd("f|%d|vio" % n, ch)
+            ctx.count(1, tag="foreign-vio")
+            stats["route_comparisons"] += 1
+            if vio != ref:
+                k = next((i for i in range(min(len(vio), len(ref))) if vio[i] != ref[i]), min(len(vio), len(ref)))
+                found = True
+                report(f.major, "foreign-%s-vio" % c["name"],
+                       "# C14 the same file bytes must give the same SF_INFO, samples, strings and errors on every route: %s (a valid file the library's own writer never produces: %s), route vio\n"
+                       "# line %d differs from the path route (sf_open):\n#   path: %s\n#   vio : %s\n--- script\n%s"
+                       % (j["name"], c["tag"], k + 2, (ref[k] if k < len(ref) else "(missing)")[:300], (vio[k] if k < len(vio) else "(missing)")[:300], sd["f|%d|vio" % n][:200000]))
+        if c.get("bigskip"):
+            if c.get("control"):
+                control_ok[c["group"]] = ok
+            elif not ok and control_ok.get(c["group"]):
+                # the same transformation, only longer; the control validated it.  Whatever the reference route makes of this member (the
+                # parsers refuse a header that fills the cache to the last byte -- on every route alike, not a matter of routes), the OTHER
+                # routes must make the same of it: fall through to the comparisons
+                stats["bigskip_members_not_read_by_the_reference_route"] += 1
+                c["ref_refuses"] = bool(ref) and re.match(r"open=NULL err=[1-9]", ref[0]) is not None
+                ok = True
         if not ok:
             stats["not_accepted_as_equivalent_by_the_reference_route"] += 1
             ctx.notes.setdefault("foreign_not_accepted", []).append("%s: %s" % (c["name"], (ref[0] if ref else "(nothing)")[:90]))
@@ -310,6 +360,11 @@ def run(ctx, consts, jobs):
                 b0 = [re.sub(r" seekable=\d", "", x) for x in rd(key, ch)]
                 ctx.count(1, tag="foreign-pipe")
                 stats["pipe_comparisons"] += 1
+                if c.get("ref_refuses") and b0 and re.match(r"open=NULL err=[1-9]", b0[0]):
+                    # both refuse at open (the pipe clause is about SAMPLES: neither route delivers any; the error number of a refusal on a
+                    # one-pass stream is the parser's own and differs by design, as for the UNSTREAMABLE layouts)
+                    stats["bigskip_refused_on_both"] += 1
+                    continue
                 if c["tag"] in UNSTREAMABLE and b0 and re.match(r"open=NULL err=[1-9]", b0[0]):
                     # the chunk that says how to decode the audio lies BEHIND the audio: a one-pass reader cannot deliver any sample;
                     # a clean refusal at open delivers no wrong one ("delivers the same samples" is not contradicted)
